@@ -6,8 +6,11 @@ package server
 // now and under every continuation of the history.
 
 import (
-	"encoding/json"
 	"bytes"
+	"context"
+	"encoding/json"
+	"log/slog"
+	"sync"
 	"fmt"
 	"os"
 	"reflect"
@@ -82,8 +85,13 @@ func c11Behaviour(w *vfWorld, r *Router, m *vfModel) map[string]string {
 		key  string
 		pend *vfPending
 		svc  string
+		seq  int
 	}
 	var jobs []job
+	// each proxy gets its own access log: what it records about a request is part of what it does
+	sink := &c11LogSink{}
+	logged := WithLoggingMiddleware(slog.New(sink), 80, 443, r)
+	seq := 0
 	for _, name := range vfSortedKeys(m.Svcs) {
 		s := m.Svcs[name]
 		if s.State != "running" {
@@ -97,22 +105,27 @@ func c11Behaviour(w *vfWorld, r *Router, m *vfModel) map[string]string {
 		prefix := s.Spec.normPrefixes()[len(s.Spec.normPrefixes())-1]
 		path := strings.TrimSuffix(prefix, "/") + "/deep/er?x=1;y"
 		mk := func(method string, ctl *vfCtl, body []byte) *vfPending {
-			req := vfNewRequest(method, host, path, ctl, body)
+			seq++
+			req := vfNewRequest(method, host, fmt.Sprintf("%s&job=%d", path, seq), ctl, body)
+			req.Header.Set("X-Custom", "custom-value")
+			req.Header.Set("Accept", "text/vf")
+			req.Header.Set("User-Agent", "vf-agent")
 			if tlsOn {
 				rq := vfReqSpec{TLS: true}
 				req.TLS = rq.build().TLS
 			}
 			req.Header.Set("X-Forwarded-For", "203.0.113.9")
 			req.Header.Set("X-Forwarded-Proto", "gopher")
-			return w.goDo(r, req)
+			return w.goDo(logged, req)
 		}
-		jobs = append(jobs, job{name + "/get", mk("GET", &vfCtl{}, nil), name})
+		jobs = append(jobs, job{name + "/get", mk("GET", &vfCtl{}, nil), name, seq})
+		jobs = append(jobs, job{name + "/abort", mk("GET", &vfCtl{Abort: true}, nil), name, seq})
 		for _, n := range []int{9, 10, 11, 100, 101, 5000, 5001} {
-			jobs = append(jobs, job{fmt.Sprintf("%s/post-%d", name, n), mk("POST", &vfCtl{}, bytes.Repeat([]byte("b"), n)), name})
-			jobs = append(jobs, job{fmt.Sprintf("%s/resp-%d", name, n), mk("GET", &vfCtl{Size: n}, nil), name})
+			jobs = append(jobs, job{fmt.Sprintf("%s/post-%d", name, n), mk("POST", &vfCtl{}, bytes.Repeat([]byte("b"), n)), name, seq})
+			jobs = append(jobs, job{fmt.Sprintf("%s/resp-%d", name, n), mk("GET", &vfCtl{Size: n}, nil), name, seq})
 		}
 		for _, d := range []int{499, 501, 1999, 2001, 9999, 10001, 29999, 30001} {
-			jobs = append(jobs, job{fmt.Sprintf("%s/slow-%d", name, d), mk("GET", &vfCtl{DurMs: d}, nil), name})
+			jobs = append(jobs, job{fmt.Sprintf("%s/slow-%d", name, d), mk("GET", &vfCtl{DurMs: d}, nil), name, seq})
 		}
 	}
 	for _, j := range jobs {
@@ -126,9 +139,57 @@ func c11Behaviour(w *vfWorld, r *Router, m *vfModel) map[string]string {
 				v += " uri=" + c11Field(body, "uri") + " xff=" + c11Field(body, "X-Forwarded-For") + " xfp=" + c11Field(body, "X-Forwarded-Proto")
 			}
 		}
+		if rp.Status != 200 {
+			v += " body=" + c06BodyDigest(rp)
+		}
 		out["behaviour/"+j.key] = v
+		out["log/"+j.key] = sink.render(j.seq, func(target string) string { return c11SlotOf(m, j.svc, target) })
 	}
 	return out
+}
+
+// c11LogSink collects the access-log records of one proxy.
+type c11LogSink struct {
+	mu   sync.Mutex
+	recs []map[string]string
+}
+
+func (h *c11LogSink) Enabled(context.Context, slog.Level) bool { return true }
+func (h *c11LogSink) WithAttrs([]slog.Attr) slog.Handler        { return h }
+func (h *c11LogSink) WithGroup(string) slog.Handler             { return h }
+func (h *c11LogSink) Handle(_ context.Context, r slog.Record) error {
+	rec := map[string]string{"msg": r.Message}
+	r.Attrs(func(a slog.Attr) bool {
+		rec[a.Key] = a.Value.String()
+		return true
+	})
+	h.mu.Lock()
+	h.recs = append(h.recs, rec)
+	h.mu.Unlock()
+	return nil
+}
+
+// render gives the records written for request number seq (there must be exactly one), the target replaced by
+// the slot it fills in its service.
+func (h *c11LogSink) render(seq int, slot func(string) string) string {
+	h.mu.Lock()
+	defer h.mu.Unlock()
+	var out []string
+	for _, rec := range h.recs {
+		if !strings.HasSuffix(rec["query"], fmt.Sprintf("&job=%d", seq)) {
+			continue
+		}
+		var kv []string
+		for _, k := range vfSortedKeys(rec) {
+			v := rec[k]
+			if (k == "target" || k == "resp_x_vf_target") && v != "" {
+				v = slot(v)
+			}
+			kv = append(kv, k+"="+v)
+		}
+		out = append(out, strings.Join(kv, " "))
+	}
+	return fmt.Sprintf("%d record(s): %s", len(out), strings.Join(out, " || "))
 }
 
 func c11SlotOf(m *vfModel, svc, target string) string {
@@ -394,6 +455,68 @@ func c11Run(t *testing.T, p c11Plan) (res vfResult) {
 				return
 			}
 			res.label("held-request-compared")
+		}
+		// the probes both proxies send from now on: to the health path of the service's options, at its interval
+		// (targets of services whose rollout side still carries earlier options - the listed finding - are left out)
+		const window = 12 * time.Second
+		synctest.Wait()
+		t0 := w.now()
+		time.Sleep(window)
+		synctest.Wait()
+		t1 := w.now()
+		type pk struct{ target, path string }
+		lo, hi, got := map[pk]int{}, map[pk]int{}, map[pk]int{}
+		ambiguous := map[string]bool{}
+		for _, n := range m.staleRolloutOptions() {
+			for _, tn := range m.Svcs[n].Rollout {
+				ambiguous[tn] = true
+				res.label("probe-cadence-skipped-for-stale-rollout-target")
+			}
+		}
+		for _, name := range vfSortedKeys(m.Svcs) {
+			s := m.Svcs[name]
+			to := s.Opt.targetOptions()
+			per := int(window / to.HealthCheckConfig.Interval)
+			for _, tn := range append(append([]string{}, s.Active...), s.Rollout...) {
+				k := pk{tn, to.HealthCheckConfig.Path}
+				lo[k] += 2 * (per - 1)
+				hi[k] += 2 * (per + 1)
+			}
+		}
+		seen := map[string]bool{}
+		for _, tn := range vfAllTargets() {
+			if seen[tn] {
+				continue
+			}
+			seen[tn] = true
+			for _, pr := range w.target(tn).probeLog() {
+				if pr.At > t0 && pr.At <= t1 {
+					got[pk{tn, pr.Path}]++
+				}
+			}
+		}
+		for k := range lo {
+			if _, ok := got[k]; !ok {
+				got[k] = 0
+			}
+		}
+		for _, k := range vfSortedKeysFunc(got, func(a, b pk) bool { return a.target+a.path < b.target+b.path }) {
+			if ambiguous[k.target] {
+				continue
+			}
+			if got[k] < lo[k] || got[k] > hi[k] {
+				var ats []string
+				for _, pr := range w.target(k.target).probeLog() {
+					if pr.At > t0 && pr.At <= t0+2*time.Second {
+						ats = append(ats, fmt.Sprintf("%v%s", pr.At-t0, pr.Path))
+					}
+				}
+				res.failf("probe-cadence", "in the %v after the continuation, target %s got %d probes of %q from the two proxies; by the options of the services that use it, between %d and %d (first two seconds: %v)", window, k.target, got[k], k.path, lo[k], hi[k], ats)
+				return
+			}
+			if lo[k] > 0 && k.path != DefaultHealthCheckPath {
+				res.label("probe-cadence-checked:custom-path")
+			}
 		}
 		res.NonTrivial = nonDefault && special
 		if nonDefault {
